@@ -16,6 +16,7 @@ type WiredDatatype struct {
 	wire        iface.Wire
 	checkPoint  *model.CheckPoint
 	localBuffer []*model.Operation
+	appliedSeq  map[string]uint64 // per origin client: the newest of its operations applied here
 }
 
 // NewWiredDatatype creates a new wiredDatatype
@@ -24,6 +25,7 @@ func NewWiredDatatype(w iface.Wire, t *TransactionDatatype) *WiredDatatype {
 		TransactionDatatype: t,
 		checkPoint:          model.NewCheckPoint(),
 		localBuffer:         make([]*model.Operation, 0, constants.OperationBufferSize),
+		appliedSeq:          make(map[string]uint64),
 		wire:                w,
 	}
 }
@@ -31,6 +33,7 @@ func NewWiredDatatype(w iface.Wire, t *TransactionDatatype) *WiredDatatype {
 // ResetWired resets the data related to WiredDatatype
 func (its *WiredDatatype) ResetWired() {
 	its.localBuffer = make([]*model.Operation, 0, constants.OperationBufferSize)
+	its.appliedSeq = make(map[string]uint64)
 	its.opID.Seq = 0
 }
 
@@ -112,13 +115,6 @@ func (its *WiredDatatype) getModelOperations(cseq uint64) []*model.Operation {
 	return []*model.Operation{}
 }
 
-func (its *WiredDatatype) calculatePullingOperations(newCheckPoint *model.CheckPoint) int {
-	// A: (newCheckPoint.Sseq - its.checkPoint.Sseq) : the number of operations newly pulled, including local pushed operations
-	// B: (newCheckPoint.Csseq - its.checkPoint.Cseq) : the number of local operation just pushed
-	// A - B: the operations that should be pulled excluding locally pushed operations
-	return int((newCheckPoint.Sseq - its.checkPoint.Sseq) - (newCheckPoint.Cseq - its.checkPoint.Cseq))
-}
-
 func (its *WiredDatatype) checkOptionAndError(ppp *model.PushPullPack) errors.OrdaError {
 	if ppp.GetPushPullPackOption().HasErrorBit() {
 		modelOp := ppp.GetOperations()[0]
@@ -155,16 +151,28 @@ func (its *WiredDatatype) checkOptionAndError(ppp *model.PushPullPack) errors.Or
 	return nil
 }
 
+// excludeDuplicatedOperations drops the pulled operations this replica already has. A
+// response can repeat operations in any position - after a lost response the retried pull
+// returns the client's own stored operations again, possibly behind operations other
+// clients pushed in between; a duplicated or stale response repeats foreign ones - so they
+// are recognised individually: the log holds every client's operations in its own sequence
+// order, hence an operation is new iff it is not this client's and its sequence number is
+// above the newest one applied from its origin. (A transaction unit has consecutive
+// sequence numbers of one origin and is therefore kept or dropped as a whole.)
 func (its *WiredDatatype) excludeDuplicatedOperations(ppp *model.PushPullPack) {
-	pulled := its.calculatePullingOperations(ppp.CheckPoint)
-	if len(ppp.Operations) > pulled {
-		// for example, if len(ppp.Operations) == 5: o_1 o_2 o_3 o_4 o_5 are received, and
-		// if `pulled` == 3, o_1 and o_2 were already received,
-		// o_1 and o_2 should be skipped
-		skip := len(ppp.Operations) - pulled
-		ppp.Operations = ppp.Operations[skip:]
+	fresh := make([]*model.Operation, 0, len(ppp.Operations))
+	for _, op := range ppp.Operations {
+		origin := op.ID.GetCUID()
+		if origin == its.opID.CUID || op.ID.GetSeq() <= its.appliedSeq[origin] {
+			continue
+		}
+		its.appliedSeq[origin] = op.ID.GetSeq()
+		fresh = append(fresh, op)
+	}
+	if skip := len(ppp.Operations) - len(fresh); skip > 0 {
 		its.L().Infof("skip %d operations", skip)
 	}
+	ppp.Operations = fresh
 }
 
 func (its *WiredDatatype) syncCheckPoint(newCheckPoint *model.CheckPoint) {
